@@ -287,3 +287,22 @@ def write_program_replay(d, minimal, bad_specs, what, module="p1"):
         f.write("re-run:\n  cd %s/prog && go run .            # prints 'HIT 1 1' : the marker reaches sink1 natively\n" % d)
         f.write("  %s -dir %s/prog %s   # \"pairs\" lacks (source1, sink1)\n" % (TRUN, d, " ".join(bad_specs)))
         f.write("  (or: cd %s/prog && %s/argot taint -config config.yaml .)\n" % (d, vlib.BIN))
+
+
+def copy_prog(d, rd):
+    """copy program directory d into replay dir rd so that it still loads: generated programs are self-contained modules;
+    staged testdata live inside a scratch module (go.mod some levels up) and are copied with their relative path.
+    Returns the directory of the program inside rd."""
+    root = d
+    while root != "/" and not os.path.exists(os.path.join(root, "go.mod")):
+        root = os.path.dirname(root)
+    ign = shutil.ignore_patterns("*-report", "prog.bin", ".trun-*")
+    if root == d or root == "/":
+        shutil.copytree(d, os.path.join(rd, "prog"), ignore=ign)
+        return os.path.join(rd, "prog")
+    rel = os.path.relpath(d, root)
+    dst = os.path.join(rd, "prog", rel)
+    os.makedirs(os.path.dirname(dst), exist_ok=True)
+    shutil.copytree(d, dst, ignore=ign)
+    shutil.copy(os.path.join(root, "go.mod"), os.path.join(rd, "prog", "go.mod"))
+    return dst
